@@ -63,7 +63,7 @@ func genImportEquals(r *Rng) ieCase {
 		member = r.Pick([]string{"T", "I", "Sub"})
 	}
 	target := path + "." + member // has `depth` dots
-	use := r.Intn(4)                // 0 type only, 1 value, 2 via another alias (type only), 3 via another alias (value)
+	use := r.Intn(4)              // 0 type only, 1 value, 2 via another alias (type only), 3 via another alias (value)
 	if rootKind != 0 && (use == 1 || use == 3) {
 		use = []int{0, 2}[r.Intn(2)]
 	}
